@@ -7,6 +7,8 @@ From V Require Import Base.Sched Proto.AsyncStackDefs.
 Import ListNotations.
 Import AsyncStack.
 
+Arguments upd : simpl never.
+
 Lemma upd_eq {A} (f : nat -> A) i v : upd f i v i = v.
 Proof. unfold upd. now rewrite Nat.eqb_refl. Qed.
 Lemma upd_neq {A} (f : nat -> A) i v j : j <> i -> upd f i v j = f j.
@@ -30,7 +32,8 @@ Definition icond (s : st) (t : nat) (it : item) : Prop :=
       own s t r /\ r_top (roots s r) = None /\ f_root (frames s f) = None /\
       match kd with
       | KS => f = n /\ n < nops s /\ begun s n = Some r /\ started s n = false /\
-              (prep = true -> f_parent (frames s n) = par s n)
+              (f_parent (frames s n) = if prep then par s n else None) /\
+              (forall p, par s n = Some p -> started s p = true)
       | KW => f = n /\ n < nops s /\ begun s n = Some r /\ started s n = false /\ prep = true /\
               par s n = None /\ f_parent (frames s n) = None
       | KC => f = nops s + r /\ n < nops s /\ started s n = true
@@ -91,16 +94,17 @@ Lemma icond_frame s s' t it :
   (forall r, item_root it = Some r -> roots s' r = roots s r) ->
   (forall f, item_frame it = Some f -> frames s' f = frames s f) ->
   (forall n, item_op it = Some n -> begun s' n = begun s n /\ started s' n = started s n) ->
+  (forall n, started s n = true -> started s' n = true) ->
   icond s' t it.
 Proof.
-  intros H Hn Hp Hr Hro Hfr Hop.
+  intros H Hn Hp Hr Hro Hfr Hop Hmono.
   destruct it as [a|kd r f n prep body|kd r f pop]; simpl in *; auto.
   - destruct H as ((H1 & H2 & H3) & H4 & H5 & H6).
     specialize (Hro r eq_refl). specialize (Hfr f eq_refl). destruct (Hop n eq_refl) as [Hb Hs].
     unfold own. rewrite Hro, Hfr, Hn, Hp.
     repeat split; auto; try lia.
     destruct kd; auto.
-    + destruct H6 as (-> & ? & ? & ? & ?). rewrite Hb, Hs, Hfr. repeat split; auto.
+    + destruct H6 as (-> & ? & ? & ? & ? & ?). rewrite Hb, Hs, Hfr. repeat split; auto.
     + destruct H6 as (? & ? & ?). rewrite Hs. repeat split; auto.
     + destruct H6 as (-> & ? & ? & ? & ? & ? & ?). rewrite Hb, Hs, Hfr. repeat split; auto.
   - destruct H as ((H1 & H2 & H3) & H4).
@@ -111,4 +115,217 @@ Proof.
     + destruct (Hop f eq_refl) as [_ Hs]. rewrite Hn, Hs. auto.
     + rewrite Hn, (Hfr f eq_refl). auto.
     + destruct (Hop f eq_refl) as [_ Hs]. rewrite Hn, Hs, (Hfr f eq_refl). auto.
+Qed.
+
+(* ---- small facts ---------------------------------------------------------------------------- *)
+Lemma pending_roots_app a b : pending_roots (a ++ b) = pending_roots a ++ pending_roots b.
+Proof. induction a as [|x a IH]; simpl; auto. destruct x; simpl; rewrite IH; auto. Qed.
+Lemma pending_roots_do body : pending_roots (map Do body) = [].
+Proof. induction body; simpl; auto. Qed.
+Lemma forall_do s t body : Forall (icond s t) (map Do body).
+Proof. induction body; simpl; constructor; simpl; auto. Qed.
+
+Lemma in_pending_item r k : In r (pending_roots k) -> exists it, In it k /\ item_root it = Some r.
+Proof.
+  induction k as [|x k IH]; simpl; [tauto|]. destruct x; simpl.
+  - intros H. destruct (IH H) as (it & ? & ?). eauto.
+  - intros [<-|H]; [eexists; split; [left; reflexivity|reflexivity]|]. destruct (IH H) as (it & ? & ?). eauto.
+  - intros [<-|H]; [eexists; split; [left; reflexivity|reflexivity]|]. destruct (IH H) as (it & ? & ?). eauto.
+Qed.
+Lemma item_in_pending it k r : In it k -> item_root it = Some r -> In r (pending_roots k).
+Proof.
+  induction k as [|x k IH]; simpl; [tauto|]. intros [->|H] E.
+  - destruct it; simpl in *; try discriminate; inversion E; subst; left; auto.
+  - destruct x; simpl; auto.
+Qed.
+
+Lemma linked_ext s s' c l :
+  (forall r, In r l -> r_next (roots s' r) = r_next (roots s r)) -> linked s c l -> linked s' c l.
+Proof.
+  intros H L. induction L; constructor. rewrite H by (left; auto). apply IHL. intros; apply H; right; auto.
+Qed.
+
+Lemma icond_root_own s t it r : icond s t it -> item_root it = Some r -> own s t r.
+Proof. destruct it; simpl; try discriminate; intros H E; inversion E; subst; tauto. Qed.
+
+(* two items on different roots never depend on the same frame *)
+Lemma excl_frame s t1 t2 h it r1 r2 f :
+  icond s t1 h -> icond s t2 it -> item_root h = Some r1 -> item_root it = Some r2 -> r1 <> r2 ->
+  item_frame h = Some f -> item_frame it = Some f -> False.
+Proof.
+  intros H1 H2 E1 E2 Hne F1 F2.
+  destruct h as [a|kd r f1 n prep body|kd r f1 pop]; simpl in *; try discriminate;
+  destruct it as [a'|kd' r' f2 n' prep' body'|kd' r' f2 pop']; simpl in *; try discriminate.
+  - inversion E1; inversion E2; inversion F1; inversion F2; subst.
+    destruct H1 as (_ & _ & A1 & B1), H2 as (_ & _ & A2 & B2).
+    destruct kd, kd'; try tauto; intuition (try congruence; try lia).
+  - inversion E1; inversion E2; subst. destruct pop'; [destruct kd'; discriminate|].
+    destruct H1 as (_ & _ & A1 & B1), H2 as (_ & A2 & B2).
+    destruct kd'; try discriminate; inversion F1; inversion F2; subst;
+      destruct kd; try tauto; intuition (try congruence; try lia).
+  - inversion E1; inversion E2; subst. destruct pop; [destruct kd; discriminate|].
+    destruct H1 as (_ & A1 & B1), H2 as (_ & _ & A2 & B2).
+    destruct kd; try discriminate; inversion F1; inversion F2; subst;
+      destruct kd'; try tauto; intuition (try congruence; try lia).
+  - inversion E1; inversion E2; subst. destruct pop; [destruct kd; discriminate|]. destruct pop'; [destruct kd'; discriminate|].
+    destruct H1 as (_ & A1 & B1), H2 as (_ & A2 & B2).
+    destruct kd; try discriminate; destruct kd'; try discriminate; inversion F1; inversion F2; subst;
+      intuition (try congruence; try lia).
+Qed.
+
+(* an operation about to be activated is not the operation of any other item *)
+Lemma excl_op_started s t1 t2 kd r1 f n prep body it r2 :
+  icond s t1 (Opening kd r1 f n prep body) -> (kd = KS \/ kd = KW) ->
+  icond s t2 it -> item_root it = Some r2 -> r1 <> r2 -> item_op it = Some n -> False.
+Proof.
+  intros H1 Hk H2 E2 Hne O2.
+  assert (Hb : begun s n = Some r1 /\ started s n = false).
+  { destruct H1 as (_ & _ & _ & B). destruct Hk; subst kd; tauto. }
+  destruct Hb as [Hb Hs].
+  destruct it as [a'|kd' r' f2 n' prep' body'|kd' r' f2 pop']; simpl in *; try discriminate.
+  - inversion E2; inversion O2; subst. destruct H2 as (_ & _ & _ & B2).
+    destruct kd'; try tauto; intuition congruence.
+  - inversion E2; subst. destruct pop'; [destruct kd'; discriminate|].
+    destruct H2 as (_ & _ & B2). destruct kd'; try discriminate; inversion O2; subst; intuition congruence.
+Qed.
+
+(* an operation that has not begun is not the operation of any item *)
+Lemma excl_op_begun s t2 it n :
+  (forall m, m < nops s -> begun s m = None -> started s m = false /\ frames s m = frame0) ->
+  begun s n = None -> icond s t2 it -> item_op it = Some n -> False.
+Proof.
+  intros G Hb H2 O2.
+  destruct it as [a'|kd' r' f2 n' prep' body'|kd' r' f2 pop']; simpl in *; try discriminate.
+  - inversion O2; subst. destruct H2 as (_ & _ & _ & B2).
+    destruct kd'; try tauto.
+    + intuition congruence.
+    + destruct B2 as (_ & Hn & Hs). destruct (G n Hn Hb). congruence.
+    + intuition congruence.
+  - destruct pop'; [destruct kd'; discriminate|].
+    destruct H2 as (_ & _ & B2). destruct kd'; try discriminate; inversion O2; subst;
+      (destruct (G n) as [? _]; [tauto|auto|]; intuition congruence).
+Qed.
+
+(* ---- what a step of thread t leaves alone --------------------------------------------------- *)
+Record frame_rel (s s' : st) (t : nat) (wr wf wo : nat -> Prop) : Prop := {
+  fr_nops : nops s' = nops s; fr_par : par s' = par s; fr_nthr : nthreads s' = nthreads s;
+  fr_nroots : nroots s <= nroots s';
+  fr_roots : forall r, r < nroots s -> ~ wr r -> roots s' r = roots s r;
+  fr_frames : forall f, ~ wf f -> frames s' f = frames s f;
+  fr_ops : forall n, ~ wo n -> begun s' n = begun s n /\ started s' n = started s n;
+  fr_mono : forall n, started s n = true -> started s' n = true;
+  fr_conts : forall t', t' <> t -> conts s' t' = conts s t';
+  fr_cur : forall t', t' <> t -> cur s' t' = cur s t'
+}.
+
+Lemma items_preserved s s' t wr wf wo t2 l :
+  frame_rel s s' t wr wf wo -> Forall (icond s t2) l ->
+  (forall it r, In it l -> item_root it = Some r -> ~ wr r) ->
+  (forall it f, In it l -> item_frame it = Some f -> ~ wf f) ->
+  (forall it n, In it l -> item_op it = Some n -> ~ wo n) ->
+  Forall (icond s' t2) l.
+Proof.
+  intros F H Hr Hf Ho. rewrite Forall_forall in *. intros it Hin.
+  apply (icond_frame s s' t2 it (H it Hin)); try apply F.
+  - intros r E. apply (fr_roots _ _ _ _ _ _ F); [|eauto].
+    destruct (icond_root_own _ _ _ _ (H it Hin) E); auto.
+  - intros f E. apply (fr_frames _ _ _ _ _ _ F). eauto.
+  - intros n E. apply (fr_ops _ _ _ _ _ _ F). eauto.
+Qed.
+
+Lemma others_ok s s' t h k wo :
+  GI s -> t < nthreads s -> conts s t = h :: k ->
+  frame_rel s s' t (fun r => item_root h = Some r) (fun f => item_frame h = Some f) wo ->
+  (forall t2 it n, t2 < nthreads s -> In it (conts s t2) -> (t2 <> t \/ In it k) ->
+                   item_op it = Some n -> ~ wo n) ->
+  (forall t2, t2 < nthreads s -> t2 <> t -> tinv s' t2) /\
+  Forall (icond s' t) k /\
+  (forall r, In r (pending_roots k) -> roots s' r = roots s r).
+Proof.
+  intros G Ht Hc F Hwo.
+  destruct (gi_thr s G t Ht) as (HF & HL & HN). rewrite Hc in HF, HL, HN.
+  assert (Hh : icond s t h) by (inversion HF; auto).
+  assert (Hk : Forall (icond s t) k) by (inversion HF; auto).
+  assert (Hnotin : forall r, item_root h = Some r -> ~ In r (pending_roots k)).
+  { intros r E. destruct h; simpl in *; try discriminate; inversion E; subst; inversion HN; auto. }
+  split; [|split].
+  - intros t2 Ht2 Hne. destruct (gi_thr s G t2 Ht2) as (HF2 & HL2 & HN2).
+    unfold tinv. rewrite (fr_conts _ _ _ _ _ _ F t2 Hne), (fr_cur _ _ _ _ _ _ F t2 Hne).
+    assert (Hroots : forall it r, In it (conts s t2) -> item_root it = Some r -> ~ item_root h = Some r).
+    { intros it r Hin E E'. rewrite Forall_forall in HF2.
+      destruct (icond_root_own _ _ _ _ (HF2 it Hin) E) as (_ & A & _).
+      destruct (icond_root_own _ _ _ _ Hh E') as (_ & B & _). congruence. }
+    split; [|split]; auto.
+    + eapply items_preserved; [exact F|exact HF2|exact Hroots| | ].
+      * intros it f Hin E E'. rewrite Forall_forall in HF2.
+        destruct h as [a|kd r1 f1 n1 p1 b1|kd r1 f1 p1]; try discriminate.
+        -- destruct it as [a'|kd' r' f2 n' prep' body'|kd' r' f2 pop']; try discriminate;
+           (eapply (excl_frame s t t2); [exact Hh|exact (HF2 _ Hin)|reflexivity|reflexivity| |exact E'|exact E];
+            intros ->; eapply Hroots; eauto; reflexivity).
+        -- destruct it as [a'|kd' r' f2 n' prep' body'|kd' r' f2 pop']; try discriminate;
+           (eapply (excl_frame s t t2); [exact Hh|exact (HF2 _ Hin)|reflexivity|reflexivity| |exact E'|exact E];
+            intros ->; eapply Hroots; eauto; reflexivity).
+      * intros it n Hin E. eapply Hwo; eauto.
+    + eapply linked_ext; [|exact HL2]. intros r Hin. f_equal.
+      destruct (in_pending_item _ _ Hin) as (it & Hit & E). rewrite Forall_forall in HF2.
+      apply (fr_roots _ _ _ _ _ _ F); [destruct (icond_root_own _ _ _ _ (HF2 it Hit) E); auto|eauto].
+  - eapply items_preserved; [exact F|exact Hk| | | ].
+    + intros it r Hin E E'. eapply Hnotin; eauto. eapply item_in_pending; eauto.
+    + intros it f Hin E E'. rewrite Forall_forall in Hk.
+      destruct h as [a|kd r1 f1 n1 p1 b1|kd r1 f1 p1]; try discriminate;
+      destruct it as [a'|kd' r' f2 n' prep' body'|kd' r' f2 pop']; try discriminate;
+      (eapply (excl_frame s t t); [exact Hh|exact (Hk _ Hin)|reflexivity|reflexivity| |exact E'|exact E];
+       intros ->; eapply Hnotin; [reflexivity|]; eapply item_in_pending; eauto; reflexivity).
+    + intros it n Hin E. eapply (Hwo t); eauto. rewrite Hc. right; auto.
+  - intros r Hin. destruct (in_pending_item _ _ Hin) as (it & Hit & E). rewrite Forall_forall in Hk.
+    apply (fr_roots _ _ _ _ _ _ F); [destruct (icond_root_own _ _ _ _ (Hk it Hit) E); auto|].
+    intros E'. eapply Hnotin; eauto.
+Qed.
+
+(* ---- assembling the invariant after a step of thread t whose continuation was h :: k --------- *)
+Lemma build_GI s s' t h k knew wo :
+  GI s -> t < nthreads s -> conts s t = h :: k ->
+  frame_rel s s' t (fun r => item_root h = Some r) (fun f => item_frame h = Some f) wo ->
+  (forall t2 it n, t2 < nthreads s -> In it (conts s t2) -> (t2 <> t \/ In it k) ->
+                   item_op it = Some n -> ~ wo n) ->
+  failed s' = false ->
+  conts s' t = knew ++ k ->
+  Forall (icond s' t) knew ->
+  (linked s (match item_root h with Some r => r_next (roots s r) | None => cur s t end) (pending_roots k) ->
+   linked s' (cur s' t) (pending_roots knew ++ pending_roots k)) ->
+  (forall r, In r (pending_roots knew) -> ~ In r (pending_roots k)) -> NoDup (pending_roots knew) ->
+  (forall n, n < nops s' -> begun s' n = None -> started s' n = false /\ frames s' n = frame0) ->
+  (forall n, started s' n = true ->
+      n < nops s' /\ f_parent (frames s' n) = par s' n /\ forall p, par s' n = Some p -> started s' p = true) ->
+  (forall r, r_live (roots s' r) = true ->
+      r < nroots s' /\ r_thr (roots s' r) < nthreads s' /\ In r (pending_roots (conts s' (r_thr (roots s' r))))) ->
+  (forall r, r_live (roots s' r) = false -> r_top (roots s' r) = None) ->
+  (forall r, nroots s' <= r -> roots s' r = root0 /\ frames s' (nops s' + r) = frame0) ->
+  GI s'.
+Proof.
+  intros G Ht Hc F Hwo Hfail Hc' Hnew Hlink Hdisj Hnd G1 G2 G3 G4 G5.
+  destruct (others_ok s s' t h k wo G Ht Hc F Hwo) as (Hoth & Htail & Hsame).
+  destruct (gi_thr s G t Ht) as (HF & HL & HN). rewrite Hc in HF, HL, HN.
+  constructor; auto.
+  intros t2 Ht2. rewrite (fr_nthr _ _ _ _ _ _ F) in Ht2.
+  destruct (Nat.eq_dec t2 t) as [->|Hne]; [|auto].
+  unfold tinv. rewrite Hc', pending_roots_app. split; [|split].
+  - apply Forall_app. auto.
+  - apply Hlink. destruct h as [a|kd r f n p b|kd r f p]; simpl in *; auto; inversion HL; auto.
+  - assert (NoDup (pending_roots k)).
+    { destruct h; simpl in HN; auto; inversion HN; auto. }
+    clear - Hdisj Hnd H. induction (pending_roots knew) as [|x l IH]; simpl; auto.
+    inversion Hnd; subst. constructor.
+    + rewrite in_app_iff. intros [?|?]; [tauto|]. eapply Hdisj; eauto. left; auto.
+    + apply IH; auto. intros r Hr. apply Hdisj. right; auto.
+Qed.
+
+(* the current root of a thread is the root of the first bracket item of its continuation *)
+Lemma cur_is_head s t r l : linked s (cur s t) (r :: l) -> cur s t = Some r.
+Proof. intros H. inversion H; auto. Qed.
+
+Lemma tail_roots_small s t k : Forall (icond s t) k -> forall r, In r (pending_roots k) -> r < nroots s.
+Proof.
+  intros H r Hin. destruct (in_pending_item _ _ Hin) as (it & Hit & E). rewrite Forall_forall in H.
+  destruct (icond_root_own _ _ _ _ (H it Hit) E); auto.
 Qed.
